@@ -119,3 +119,165 @@ Proof.
     rewrite app_nil_r. destruct (rev t) eqn:E; [apply (f_equal (@rev _)) in E; rewrite rev_involutive in E; cbn in E; congruence|].
     rewrite <- E, rev_involutive. f_equal. apply IH. exact (Forall_inv_tail H).
 Qed.
+
+(* ---------------- Cache-Control: every directive list survives write / parse ---------------- *)
+
+Definition ok_dir (d : N * Z) : Prop :=
+  ((fst d < 8)%N /\ snd d = 0%Z) \/ ((8 <= fst d < 12)%N /\ (0 <= snd d <= LONG_MAX)%Z).
+Definition no_nul (s : bytes) : Prop := Forall (fun c => ascii_eqb c c_nul = false) s.
+
+Lemma until_nul_id s : no_nul s -> until_nul s = s.
+Proof. induction s as [|c s IH]; intros H; [reflexivity|]. cbn [until_nul]. rewrite (Forall_inv H), IH by exact (Forall_inv_tail H). reflexivity. Qed.
+
+Lemma digits_no_nul n : no_nul (print_dec n).
+Proof.
+  destruct (print_dec_spec n) as [_ [Hall _]]. eapply Forall_impl; [|exact Hall]. intros c [d Hd].
+  destruct (ascii_eqb c c_nul) eqn:E; [|reflexivity]. apply ascii_eqb_eq in E. subst c. vm_compute in Hd. discriminate.
+Qed.
+
+Lemma strtol_pre_dec n rest : (Z.of_N n <= LONG_MAX)%Z -> no_nul rest ->
+  (match rest with x :: _ => digit_val 10 x = None | [] => True end) ->
+  strtol_pre (print_dec n ++ rest) = (Z.of_N n, rest).
+Proof.
+  intros Hn Hz Hr. unfold strtol_pre.
+  rewrite until_nul_id by (apply Forall_app; split; [apply digits_no_nul|exact Hz]).
+  pose proof (print_dec_first_not_special n) as Hf. destruct (print_dec_spec n) as [Hne [Hall Hv]].
+  destruct (print_dec n) as [|c r] eqn:Ep; [congruence|]. destruct Hf as [Hs [Hm Hp]].
+  cbn [app skip_space]. rewrite Hs. cbn [strip_sign]. rewrite Hm, Hp.
+  change (c :: r ++ rest) with ((c :: r) ++ rest). rewrite (take_digits_all (c :: r) rest 0%N 0 Hall Hr). rewrite Hv.
+  cbn [length plus].
+  destruct (LONG_MAX <? Z.of_N n)%Z eqn:E1; [apply Z.ltb_lt in E1; lia|].
+  destruct (Z.of_N n <? LONG_MIN)%Z eqn:E2; [apply Z.ltb_lt in E2; unfold LONG_MIN in E2; lia|].
+  f_equal. rewrite app_length. replace (length (c :: r) + length rest - length rest) with (length (c :: r)) by lia.
+  rewrite skipn_app, skipn_all, Nat.sub_diag. reflexivity.
+Qed.
+
+Lemma plain_found i R : (i < 8)%N ->
+  first_exact cc_plain (list_of_string (nth (N.to_nat i) cc_plain ""%string) ++ R) 0%N = Some (i, R).
+Proof.
+  intros H. assert (E : (i = 0 \/ i = 1 \/ i = 2 \/ i = 3 \/ i = 4 \/ i = 5 \/ i = 6 \/ i = 7)%N) by lia.
+  repeat (destruct E as [->|E]; [vm_compute; reflexivity|]). subst. vm_compute. reflexivity.
+Qed.
+
+Lemma timed_found i R : (8 <= i < 12)%N ->
+  first_exact cc_plain (list_of_string (nth (N.to_nat i - 8) cc_timed ""%string) ++ R) 0%N = None
+  /\ first_exact cc_timed (list_of_string (nth (N.to_nat i - 8) cc_timed ""%string) ++ R) 8%N = Some (i, R).
+Proof.
+  intros H. assert (E : (i = 8 \/ i = 9 \/ i = 10 \/ i = 11)%N) by lia.
+  repeat (destruct E as [->|E]; [vm_compute; split; reflexivity|]). subst. vm_compute. split; reflexivity.
+Qed.
+
+Lemma write_one_no_nul d : ok_dir d -> no_nul (cc_write_one d).
+Proof.
+  destruct d as [i z]. intros [[Hi Hz]|[Hi Hz]]; cbn [fst snd] in *; unfold cc_write_one.
+  - replace (i <? 8)%N with true by (symmetry; apply N.ltb_lt; lia).
+    assert (E : (i = 0 \/ i = 1 \/ i = 2 \/ i = 3 \/ i = 4 \/ i = 5 \/ i = 6 \/ i = 7)%N) by lia.
+    repeat (destruct E as [->|E]; [cbn; repeat constructor|]). subst. cbn. repeat constructor.
+  - replace (i <? 8)%N with false by (symmetry; apply N.ltb_ge; lia).
+    replace (0 <=? z)%Z with true by (symmetry; apply Z.leb_le; lia).
+    apply Forall_app. split.
+    + assert (E : (i = 8 \/ i = 9 \/ i = 10 \/ i = 11)%N) by lia.
+      repeat (destruct E as [->|E]; [cbn; repeat constructor|]). subst. cbn. repeat constructor.
+    + constructor; [reflexivity|apply digits_no_nul].
+Qed.
+
+Lemma cc_write_cons d r : r <> [] -> cc_write (d :: r) = cc_write_one d ++ list_of_string ", " ++ cc_write r.
+Proof. destruct r; [congruence|reflexivity]. Qed.
+
+Lemma cc_write_no_nul : forall ds, Forall ok_dir ds -> no_nul (cc_write ds).
+Proof.
+  induction ds as [|d ds IH]; intros H; [constructor|]. destruct ds as [|d2 ds'].
+  - cbn [cc_write]. apply write_one_no_nul. exact (Forall_inv H).
+  - rewrite cc_write_cons by discriminate. apply Forall_app. split; [apply write_one_no_nul; exact (Forall_inv H)|].
+    apply Forall_app. split; [repeat constructor|]. apply IH. exact (Forall_inv_tail H).
+Qed.
+
+(* a written list starts with a lower-case letter: neither ',' nor a blank nor a digit *)
+Lemma cc_write_first d r : ok_dir d ->
+  exists c t, cc_write (d :: r) = c :: t /\ ascii_eqb c "," = false /\ ascii_eqb c " " = false.
+Proof.
+  intros Hd. assert (G : exists c t, cc_write_one d = c :: t /\ ascii_eqb c "," = false /\ ascii_eqb c " " = false).
+  { destruct d as [i z]. destruct Hd as [[Hi Hz]|[Hi Hz]]; cbn [fst snd] in *; unfold cc_write_one.
+    - replace (i <? 8)%N with true by (symmetry; apply N.ltb_lt; lia).
+      assert (E : (i = 0 \/ i = 1 \/ i = 2 \/ i = 3 \/ i = 4 \/ i = 5 \/ i = 6 \/ i = 7)%N) by lia.
+      repeat (destruct E as [->|E]; [cbn; eexists; eexists; repeat split; reflexivity|]). subst. cbn. eexists; eexists; repeat split; reflexivity.
+    - replace (i <? 8)%N with false by (symmetry; apply N.ltb_ge; lia).
+      assert (E : (i = 8 \/ i = 9 \/ i = 10 \/ i = 11)%N) by lia.
+      repeat (destruct E as [->|E]; [cbn; eexists; eexists; repeat split; reflexivity|]). subst. cbn. eexists; eexists; repeat split; reflexivity. }
+  destruct G as [c [t [E [H1 H2]]]]. destruct r as [|d2 r'].
+  - cbn [cc_write]. exists c, t. auto.
+  - rewrite cc_write_cons by discriminate. rewrite E. cbn [app]. exists c. eexists. split; [reflexivity|]. split; assumption.
+Qed.
+
+Lemma skip_comma_sp_written d r : ok_dir d ->
+  skip_comma_sp (list_of_string ", " ++ cc_write (d :: r)) = cc_write (d :: r).
+Proof.
+  intros Hd. destruct (cc_write_first d r Hd) as [c [t [E [H1 H2]]]]. rewrite E.
+  cbn [list_of_string app skip_comma_sp]. replace (ascii_eqb "," ",") with true by reflexivity. cbn [orb].
+  replace (ascii_eqb " " ",") with false by reflexivity. replace (ascii_eqb " " " ") with true by reflexivity. cbn [orb].
+  rewrite H1, H2. reflexivity.
+Qed.
+
+Lemma cc_tail (acc' : list (N * Z)) f d2 ds' : ok_dir d2 ->
+  (match list_of_string ", " ++ cc_write (d2 :: ds') with
+   | [] => Some acc'
+   | c :: _ => if ascii_eqb c "," then
+                 match skip_comma_sp (list_of_string ", " ++ cc_write (d2 :: ds')) with [] => Some acc' | r' => cc_parse f r' acc' end
+               else None
+   end) = cc_parse f (cc_write (d2 :: ds')) acc'.
+Proof.
+  intros Hd. rewrite skip_comma_sp_written by exact Hd.
+  destruct (cc_write_first d2 ds' Hd) as [c [t [E _]]].
+  cbn [list_of_string app]. replace (ascii_eqb "," ",") with true by reflexivity. rewrite E. reflexivity.
+Qed.
+
+Lemma cc_roundtrip_from : forall ds fuel acc, Forall ok_dir ds -> ds <> [] -> length ds <= fuel ->
+  cc_parse fuel (cc_write ds) acc = Some (acc ++ ds).
+Proof.
+  induction ds as [|d ds IH]; intros fuel acc Hall Hne Hf; [congruence|].
+  destruct fuel as [|f]; [cbn in Hf; lia|].
+  pose proof (Forall_inv Hall) as Hd. pose proof (Forall_inv_tail Hall) as Hds.
+  destruct d as [i z]. destruct ds as [|d2 ds'].
+  - (* the last directive *)
+    cbn [cc_write]. unfold cc_write_one. destruct Hd as [[Hi Hz]|[Hi Hz]]; cbn [fst snd] in *.
+    + subst z. replace (i <? 8)%N with true by (symmetry; apply N.ltb_lt; lia).
+      cbn [cc_parse]. rewrite <- (app_nil_r (list_of_string _)). rewrite plain_found by exact Hi. reflexivity.
+    + replace (i <? 8)%N with false by (symmetry; apply N.ltb_ge; lia).
+      replace (0 <=? z)%Z with true by (symmetry; apply Z.leb_le; lia).
+      cbn [cc_parse]. destruct (timed_found i ("="%char :: print_dec (Z.to_N z)) Hi) as [E1 E2]. rewrite E1, E2.
+      rewrite <- (app_nil_r (print_dec _)). rewrite strtol_pre_dec; [|rewrite Z2N.id; lia|constructor|exact I].
+      rewrite Z2N.id by lia. reflexivity.
+  - rewrite cc_write_cons by discriminate. unfold cc_write_one. destruct Hd as [[Hi Hz]|[Hi Hz]]; cbn [fst snd] in *.
+    + subst z. replace (i <? 8)%N with true by (symmetry; apply N.ltb_lt; lia).
+      cbn [cc_parse]. rewrite plain_found by exact Hi.
+      rewrite (cc_tail (acc ++ [(i, 0%Z)]) f d2 ds' (Forall_inv Hds)).
+      rewrite IH by (try exact Hds; try discriminate; cbn [length] in *; lia). rewrite <- app_assoc. reflexivity.
+    + replace (i <? 8)%N with false by (symmetry; apply N.ltb_ge; lia).
+      replace (0 <=? z)%Z with true by (symmetry; apply Z.leb_le; lia).
+      cbn [cc_parse]. rewrite <- !app_assoc.
+      destruct (timed_found i (("="%char :: print_dec (Z.to_N z)) ++ list_of_string ", " ++ cc_write (d2 :: ds')) Hi) as [E1 E2]. rewrite E1, E2.
+      cbn [app]. rewrite strtol_pre_dec; [|rewrite Z2N.id; lia| |reflexivity].
+      2:{ apply Forall_app. split; [repeat constructor|]. apply cc_write_no_nul. exact Hds. }
+      rewrite Z2N.id by lia.
+      assert (Hc : forall X : option (list (N * Z) * bytes),
+                 (match list_of_string ", " ++ cc_write (d2 :: ds') with
+                  | [] => Some (acc ++ [(i, z)], list_of_string ", " ++ cc_write (d2 :: ds'))
+                  | c :: _ => if ascii_eqb c "," then Some (acc ++ [(i, z)], list_of_string ", " ++ cc_write (d2 :: ds')) else X
+                  end) = Some (acc ++ [(i, z)], list_of_string ", " ++ cc_write (d2 :: ds'))) by (intros X; reflexivity).
+      rewrite Hc.
+      rewrite (cc_tail (acc ++ [(i, z)]) f d2 ds' (Forall_inv Hds)).
+      rewrite IH by (try exact Hds; try discriminate; cbn [length] in *; lia). rewrite <- app_assoc. reflexivity.
+Qed.
+
+Theorem cc_roundtrip ds : Forall ok_dir ds -> cc_parse_top (cc_write ds) = Some ds.
+Proof.
+  intros H. destruct ds as [|d r]; [reflexivity|]. unfold cc_parse_top.
+  apply (cc_roundtrip_from (d :: r) _ [] H); [discriminate|].
+  (* every directive contributes at least one character *)
+  assert (G : forall l, Forall ok_dir l -> length l <= length (cc_write l)).
+  { induction l as [|x l IH]; intros Hl; [cbn; lia|]. destruct l as [|y l'].
+    - cbn [cc_write length]. destruct (cc_write_first x [] (Forall_inv Hl)) as [c [t [E _]]]. cbn [cc_write] in E. rewrite E. cbn. lia.
+    - rewrite cc_write_cons by discriminate. rewrite !app_length. cbn [list_of_string length].
+      pose proof (IH (Forall_inv_tail Hl)). cbn [length] in *. lia. }
+  pose proof (G (d :: r) H). lia.
+Qed.
